@@ -27,7 +27,15 @@ type recDst struct {
 	failAt int
 }
 
+// dstChurn: the destination is itself a user of the shared byte pool (another connection's writer scheduled
+// while this one's frame is going out): every Write first takes, scribbles over and returns buffers of every
+// size class. Whatever the library still needs must not be in the pool at that moment.
+var dstChurn bool
+
 func (d *recDst) Write(p []byte) (int, error) {
+	if dstChurn {
+		poolChurn()
+	}
 	i := d.calls
 	d.calls++
 	if i == d.failAt {
@@ -194,6 +202,17 @@ func runWriterOps(a []string) string {
 
 func init() {
 	ops["wr"] = runWriterOps
+	// wrc / wmc: wr / wm with a destination that churns the byte pool inside every Write
+	ops["wrc"] = func(a []string) string {
+		dstChurn = true
+		defer func() { dstChurn = false }()
+		return runWriterOps(a)
+	}
+	ops["wmc"] = func(a []string) string {
+		dstChurn = true
+		defer func() { dstChurn = false }()
+		return ops["wm"](a)
+	}
 	ops["wm"] = func(a []string) string { // wm <side> <op> <payload> <fail> <seed> : WriteMessage
 		st := side(a[0])
 		opn, _ := strconv.Atoi(a[1])
@@ -237,6 +256,19 @@ func availOf(sd string, ctor string) int {
 
 func genC06(tier string, r *rng) {
 	sides := []string{"S", "C"}
+	// the unbuffered paths (Write larger than an empty buffer, WriteThrough, WriteMessage) with a destination that
+	// is itself a pool user: sizes in every pool class up to the largest and one above
+	for _, sd := range sides {
+		for i, n := range []int{20, 100, 128, 129, 1000, 4096, 5000, 65536, 65537} {
+			if tier == "quick" && n > 5000 && sd == "S" {
+				continue
+			}
+			p := hx(r.bytes(n))
+			run(fmt.Sprintf("wrc %s %d %s - - %d %s", sd, 1+i%2, "buf:16", 40+i, "w:"+p+" fl av"))
+			run(fmt.Sprintf("wrc %s %d %s - - %d %s", sd, 1+i%2, "bufsize:64", 50+i, "wt:"+p+" w:"+hx(r.bytes(3))+" fl av"))
+			run(fmt.Sprintf("wmc %s %d %s - %d", sd, 1+i%2, p, 60+i))
+		}
+	}
 	ctors := []string{"buf:16", "buf:24", "size:10", "bufsize:64", "buf:131", "buf:135", "size:125", "size:126"}
 	// exhaustive op sequences to depth 3 over boundary sizes relative to the buffer
 	depth := 3
